@@ -114,7 +114,24 @@ def run_reader(stream, pf=7, qe=1, parsing=True, validate=1, msgmode=0, handler=
             src = bio
         kw = dict(protfilter=pf, quitonerror=qe, parsing=parsing, validate=validate, msgmode=msgmode,
                   parsebitfield=bf, bufsize=bufsize)
-        if handler:
+        if handler == "obj":
+            # a callable object that is falsy (an empty error collector): still a handler
+            class _Collector:
+                def __call__(self, e):
+                    reports.append(impl.exn_name(e))
+
+                def __len__(self):
+                    return 0
+
+                def __bool__(self):
+                    return False
+            kw["errorhandler"] = _Collector()
+        elif handler == "method":
+            class _Sink:
+                def on_error(self, e):
+                    reports.append(impl.exn_name(e))
+            kw["errorhandler"] = _Sink().on_error
+        elif handler:
             kw["errorhandler"] = lambda e: reports.append(impl.exn_name(e))
         try:
             with impl.quiet():
